@@ -41,7 +41,8 @@ def make_output(kind: str, name_hint: str = ""):
     else:
         raise KeyError(kind)
     ns = Namespace(func=partial(eval_marker, 1) if kind != "int" else "learn_func", model_dir=Path("/some/dir") / name_hint, seed=np.int64(7),
-                   gamma=np.float64(0.5), nested={"a": [1, 2, {"b": None}]}, flag=True, name=name_hint, number_of_players=4)
+                   gamma=np.float64(0.5), nested={"a": [1, 2, {"b": None}], "b": {"data": [[0.5]], "a b/ü": {"x": 1}}, "sweep": {"b": {"seed": 1}, "second": {}, "new": {}}},
+                   flag=True, name=name_hint, number_of_players=4)
     return Output(data, actions, ns)
 
 
